@@ -29,27 +29,34 @@ open TallyVerif.Migrate (NumLit Date AmountCond DateCond Parsed CsvRule)
 
 /-! ## 0. the regular expressions the scanners below implement (source text of the constants, flags) -/
 
+/-- `cs("abc")` is the character list `['a', 'b', 'c']`, expanded when the file is elaborated (a `String` literal would have to be
+decoded by the kernel, character by character, inside every `decide +kernel`) -/
+macro "cs(" s:str ")" : term => do
+  let chars : Array (Lean.TSyntax `term) :=
+    (s.getString.toList.map fun c => (Lean.Syntax.mkCharLit c : Lean.TSyntax `term)).toArray
+  `(([$chars,*] : List Char))
+
 /-- `(name, pattern, flags)` of every `re.compile` constant of `modifier_parser.py`, in source order -/
-def regexTable : List (String × String × List String) :=
-  [("MODIFIER_BLOCK_PATTERN", "\\[(amount|date|month)([^\\]]*)\\]", []),
-   ("AMOUNT_GT", "^\\s*>\\s*([\\d.]+)\\s*$", []),
-   ("AMOUNT_LT", "^\\s*<\\s*([\\d.]+)\\s*$", []),
-   ("AMOUNT_EQ", "^\\s*=\\s*([\\d.]+)\\s*$", []),
-   ("AMOUNT_GTE", "^\\s*>=\\s*([\\d.]+)\\s*$", []),
-   ("AMOUNT_LTE", "^\\s*<=\\s*([\\d.]+)\\s*$", []),
-   ("AMOUNT_RANGE", "^\\s*:\\s*([\\d.]+)\\s*-\\s*([\\d.]+)\\s*$", []),
-   ("DATE_EQ", "^\\s*=\\s*(\\d{4}-\\d{2}-\\d{2})\\s*$", []),
-   ("DATE_RANGE", "^\\s*:\\s*(\\d{4}-\\d{2}-\\d{2})\\s*\\.\\.\\s*(\\d{4}-\\d{2}-\\d{2})\\s*$", []),
-   ("DATE_RELATIVE", "^\\s*:\\s*last(\\d+)days\\s*$", ["IGNORECASE"]),
-   ("MONTH_EQ", "^\\s*=\\s*(\\d{1,2})\\s*$", [])]
+def regexTable : List (List Char × List Char × List (List Char)) :=
+  [(cs("MODIFIER_BLOCK_PATTERN"), cs("\\[(amount|date|month)([^\\]]*)\\]"), []),
+   (cs("AMOUNT_GT"), cs("^\\s*>\\s*([\\d.]+)\\s*$"), []),
+   (cs("AMOUNT_LT"), cs("^\\s*<\\s*([\\d.]+)\\s*$"), []),
+   (cs("AMOUNT_EQ"), cs("^\\s*=\\s*([\\d.]+)\\s*$"), []),
+   (cs("AMOUNT_GTE"), cs("^\\s*>=\\s*([\\d.]+)\\s*$"), []),
+   (cs("AMOUNT_LTE"), cs("^\\s*<=\\s*([\\d.]+)\\s*$"), []),
+   (cs("AMOUNT_RANGE"), cs("^\\s*:\\s*([\\d.]+)\\s*-\\s*([\\d.]+)\\s*$"), []),
+   (cs("DATE_EQ"), cs("^\\s*=\\s*(\\d{4}-\\d{2}-\\d{2})\\s*$"), []),
+   (cs("DATE_RANGE"), cs("^\\s*:\\s*(\\d{4}-\\d{2}-\\d{2})\\s*\\.\\.\\s*(\\d{4}-\\d{2}-\\d{2})\\s*$"), []),
+   (cs("DATE_RELATIVE"), cs("^\\s*:\\s*last(\\d+)days\\s*$"), [cs("IGNORECASE")]),
+   (cs("MONTH_EQ"), cs("^\\s*=\\s*(\\d{1,2})\\s*$"), [])]
 
 /-- which constant each function consults, with which method, in source order -/
-def useTable : List (String × List (String × String)) :=
-  [("parse_pattern_with_modifiers", [("MODIFIER_BLOCK_PATTERN", "finditer")]),
-   ("_parse_amount_modifier", [("AMOUNT_GT", "match"), ("AMOUNT_GTE", "match"), ("AMOUNT_LT", "match"),
-                               ("AMOUNT_LTE", "match"), ("AMOUNT_EQ", "match"), ("AMOUNT_RANGE", "match")]),
-   ("_parse_date_modifier", [("DATE_EQ", "match"), ("DATE_RANGE", "match"), ("DATE_RELATIVE", "match")]),
-   ("_parse_month_modifier", [("MONTH_EQ", "match")])]
+def useTable : List (List Char × List (List Char × List Char)) :=
+  [(cs("parse_pattern_with_modifiers"), [(cs("MODIFIER_BLOCK_PATTERN"), cs("finditer"))]),
+   (cs("_parse_amount_modifier"), [(cs("AMOUNT_GT"), cs("match")), (cs("AMOUNT_GTE"), cs("match")), (cs("AMOUNT_LT"), cs("match")),
+                                   (cs("AMOUNT_LTE"), cs("match")), (cs("AMOUNT_EQ"), cs("match")), (cs("AMOUNT_RANGE"), cs("match"))]),
+   (cs("_parse_date_modifier"), [(cs("DATE_EQ"), cs("match")), (cs("DATE_RANGE"), cs("match")), (cs("DATE_RELATIVE"), cs("match"))]),
+   (cs("_parse_month_modifier"), [(cs("MONTH_EQ"), cs("match"))])]
 
 /-! ## 1. external functions -/
 
